@@ -19,6 +19,15 @@ CHECKS = {
                  "range are counted as excluded)."),
         "technique": "TLA+ reference interpreter evaluated by TLC (all nondeterministic branches) vs real compile+run, per program",
     },
+    "C02": {
+        "text": ("BytecodeWF.tla is an abstract interpreter (TLA+ actions over a worklist) on the raw instruction bytes of every function "
+                 "the real compiler emitted: instruction boundaries, jump targets, operand validity, equal non-negative stack heights on "
+                 "all paths, every path ends in RET/SUSPEND. TLC follows all paths, executed or not. The heights it computes are then "
+                 "checked against the real VM at every dispatched instruction (sp = bp + NumLocals + H[fn][ip]) through the probe hook."),
+        "design_ref": "DESIGN.md 5.4, 8/C02",
+        "note": "Trusted: TLC; the opcode width/effect tables transcribed into the spec; the harness dump of Instructions and the probe hook.",
+        "technique": "TLA+ abstract interpretation of real bytecode checked by TLC (artefact validation) + per-instruction VM probe against predicted heights",
+    },
     "C03": {
         "text": ("Optimizer.tla transcribes optimizeFunc on index-addressed code; TLC checks NoPanic, RemovedUnreachable, Simulates, EndOK, "
                  "EndsInRet, PosPreserved for every instruction sequence up to the length bound over all jump kinds. Every real optimizer "
